@@ -8,7 +8,7 @@ VARIABLE l
 vars == <<l>>
 
 Panicked(x) == x = <<-1>>
-TextOk(r) == r.out = ExpFmt(r.fmt, 1, r.v, 0) \/ r.out = ExpFmt(r.fmt, 1, r.v, 1)
+TextOk(r) == \E conv \in 0..3 : r.out = ExpFmt(r.fmt, 1, r.v, conv)
 
 FmtWhy(r) ==
   IF r.out = <<-2>> THEN "strftime panicked"
